@@ -273,7 +273,7 @@ deriving DecidableEq, Repr
 inductive OrderBy where
   | none
   | one (a : OrderArg)
-  | many (l : List OrderArg)
+  | many (k : SeqKind) (l : List OrderArg)      -- a list `[…]` or a tuple `(…)` of keys
 deriving DecidableEq, Repr
 
 inductive DbOrder where
@@ -313,10 +313,20 @@ def mungeOrderBy (sch : Schema) : OrderArg → OExpr
     | some i => wrapIf (if desc then Extracted.mungeColumn.1 else Extracted.mungeColumn.2) (.field (.col i))
     | none => wrapIf (if desc then Extracted.mungeRaw.1 else Extracted.mungeRaw.2) (.const s')
 
+/-- what `_mungeOrderBy` does to a key when it is handed the whole (unrecognised) container: nothing;
+    `Select.__sqlrepr__` then pastes a string key verbatim -/
+def verbatim : OrderArg → OExpr
+  | .expr e => e
+  | .str s => .const s
+
+/-- `SelectResults.__init__`: a container of a recognised kind is translated key by key -/
+def mungeSeq (sch : Schema) (k : SeqKind) (l : List OrderArg) : List OExpr :=
+  if k ∈ Extracted.mungedSeqKinds then l.map (mungeOrderBy sch) else l.map verbatim
+
 def mungeAll (sch : Schema) : OrderBy → DbOrder
   | .none => .none
   | .one a => .one (mungeOrderBy sch a)
-  | .many l => .many (l.map (mungeOrderBy sch))
+  | .many k l => .many (mungeSeq sch k l)
 
 inductive Term where
   | field (c : ColRef)
